@@ -106,7 +106,9 @@ class _Factory:
 
     @staticmethod
     def Get_ElemInFos(gmshId):
-        return (f"T{gmshId}",)
+        # the real table (elemType, nPe, dim, order, Nvertex, Nedge, Nface, Nvolume): a pure lookup
+        from EasyFEA.FEM._group_elem import GroupElemFactory
+        return GroupElemFactory.Get_ElemInFos(gmshId)
 
 
 SMALL = {
